@@ -140,6 +140,15 @@ def baseline_functions():
     return _BASE
 
 
+def is_baseline_fn(path):
+    """Did a function with this (module-independent) short name exist on the pinned tree?  True when no baseline is recorded."""
+    base = baseline_functions()
+    if '*' in base:
+        return True
+    from rules.recursion import short_name
+    return short_name(path) in base
+
+
 def match_known(run, o, known_active):
     """Key of the known finding that this violation is, or None.  Exact key first; otherwise the same rule and function with
     the same construct up to local-variable names; a recursion finding (construct scc{...}) is the same finding when the
@@ -158,6 +167,17 @@ def match_known(run, o, known_active):
             # function was newly pulled into the recursion
             if mem & km and (mem <= km or ('*' not in baseline_functions() and not ((mem - km) & baseline_functions()))):
                 return k
+            # the whole recorded cycle renamed: none of its members exists any more, and the reported cycle consists only of
+            # functions that did not exist on the pinned tree, in the same number, in the same source file
+            if not (mem & km) and '*' not in baseline_functions() and len(mem) == len(km) and not (mem & baseline_functions()):
+                try:
+                    from rules.recursion import short_name
+                    current = {short_name(p_) for p_ in run.facts.bodies}
+                    same_file = kf.split('::')[0] == o.fn.split('::')[0]      # same module
+                    if not (km & current) and same_file:
+                        return k
+                except Exception:
+                    pass
             continue
         if kf == o.fn and e.get('cdesc') is not None and e['cdesc'] == canon_desc(run.facts, o.fn, o.desc) and str(o.n) == kn:
             return k
